@@ -71,9 +71,7 @@ fn node_code(p: &Program, i: usize, op: &Op, out_deg: usize) -> NodeCode {
         Op::AllIterations => simple("all_iterations()".into(), one_in(), one_out()),
         Op::Persist => simple("persist::<'static>()".into(), one_in(), one_out()),
         Op::Unique { p } => simple(format!("unique::<{}>()", p.s()), one_in(), one_out()),
-        // the typed identity in front lets rustc infer the item type where the input is a deferred
-        // handoff in a cycle (multiset_delta's closure calls `item.clone()` on a not yet inferred type)
-        Op::MultisetDelta => simple("identity::<It>() -> multiset_delta()".into(), one_in(), one_out()),
+        Op::MultisetDelta => simple("multiset_delta()".into(), one_in(), one_out()),
         Op::Sort => simple("sort()".into(), one_in(), one_out()),
         Op::SortByKey { f } => {
             let proj = if f % 2 == 0 { "&x.0" } else { "&x.1" };
